@@ -861,6 +861,9 @@ namespace sim
 			// called when a packet is dropped
 			void packet_dropped(aux::packet p);
 
+			// retransmit dropped packets, as far as the congestion window allows
+			void resend_dropped_packets();
+
 			aux::function<void(boost::system::error_code const&)> m_connect_handler;
 
 			asio::high_resolution_timer m_connect_timer;
@@ -891,6 +894,10 @@ namespace sim
 			std::vector<asio::mutable_buffer> m_recv_buffer;
 
 			asio::high_resolution_timer m_recv_timer;
+
+			// retransmission timeout, for when every segment in flight was
+			// dropped and no ACK will come back to trigger the retransmission
+			asio::high_resolution_timer m_resend_timer;
 
 			// our address family
 			bool m_is_v4 = true;
